@@ -196,7 +196,7 @@ const (
 	actReturn
 	actJump
 	actGoto
-	actMark     // mark = (mark & and) ^ xor
+	actMark // mark = (mark & and) ^ xor
 	actNoTrack
 	actLog
 	actNAT
